@@ -351,3 +351,7 @@ func RerootAt(root, at *Node) *Node {
 func SuppressDegree2(root *Node) *Node {
 	return Restrict(root, func(string) bool { return true })
 }
+
+// To returns the node index at the other end of a graph edge; Node the model node below the branch.
+func (e gEdge) To() int     { return e.to }
+func (e gEdge) Node() *Node { return e.node }
